@@ -268,6 +268,50 @@ def check(facts, rep, tier, cfg):
     # ---- R7 after an invalid frame the teardown cannot be held up by a Connect still buffered behind it
     import rules_c07 as _c07
     _c07.check_handoff(facts, rep, crate, "C10.R7")
+    # ---- R8 a message that is not a valid frame ends the connection
+    rep.rule("C10.R8", "a Binary message that does not decode ends the connection with an error: in the message dispatcher no successful return "
+                       "(and no further frame handling) is reachable from the failure edge of the frame decoder, whatever the kind of decode error")
+    from an import guard_at as _ga, Tracer as _Tr
+    k8 = 0
+    for b in crate.bodies:
+        if not any("ws::Message" in b.locals[i]["s"] for i in range(len(b.locals))):
+            continue
+        decs = [bi for bi, t in b.calls() if callee(t) and callee(t)["name"] in ("try_into", "try_from") and "frame::Frame" in callee(t)["path"]]
+        if not decs:
+            continue
+        tr8 = _Tr(facts, b)
+        for dbi in decs:
+            k8 += 1
+            rep.analysed(b)
+            w8 = "%s (%s)" % (loc_str(b.term(dbi)["loc"]), b.path)
+            leak = None
+            for gb in b.reachable_from(dbi):
+                if b.term(gb)["k"] != "SwitchInt":
+                    continue
+                g = _ga(facts, b, tr8, gb)
+                if g is None or g.kind != "discr":
+                    continue
+                if not any(x.kind == "call" and x[6] in ("try_into", "try_from") and "Frame" in x[2] for x in walk(g.pred)):
+                    continue
+                # only the decode result itself (through `?`), not values derived from the decoded frame
+                pz = strip(g.pred)
+                if not ((g.adt or "").endswith("result::Result") or (g.adt or "").endswith("ControlFlow")):
+                    continue
+                for succ, v in g.edges:
+                    if v not in ("Err", "Break"):
+                        continue
+                    for x in b.reachable_from(succ):
+                        for st in b.blocks[x]["stmts"]:
+                            if st["k"] == "Assign" and st["lhs"]["l"] == 0 and not st["lhs"].get("p") and st["rv"]["k"] == "Aggregate" and \
+                                    st["rv"]["agg"].get("variant") == "Ok":
+                                leak = x
+            if leak is not None:
+                rep.bad("C10.R8", "decode-error-ends-connection", w8,
+                        "after the frame decoder has failed the dispatcher can still return Ok (%s): for some kinds of invalid frame the "
+                        "connection carries on instead of ending with an error that every pending operation observes" % loc_str(b.term(leak)["loc"]))
+            else:
+                rep.ok("C10.R8", "decode-error-ends-connection", w8, "decode failure -> Err on every path")
+    rep.floor("C10.R8", "frame decode sites in the message dispatcher", k8, 1)
     rep.rule("C10.S1", "S1: every message taken off the outbound queue is handed to the WebSocket sink by the send loop (= C02.R2): the frames this property relies on are not dropped, deduplicated or reordered on the way out")
     import_outbound_queue_rule(facts, rep, tier, cfg, "C10.S1")
     rep.rule("C10.S7", "who-may: the functions that touch the critical resources behind this property are those of the reference tree (flow table, closed flag, per-stream / datagram / outbound queues, last-pong timestamp, client id maps, shared TLS identity)")
